@@ -194,7 +194,7 @@ func c21Gen(rng *core.Rng, tier string) *harness.Plan {
 // c21Enumerate: for each of H seeded histories, every crash boundary in the
 // window (3 modes x k) x interleaving depth x two targets.
 func c21Enumerate(tier string, seed uint64) []*harness.Plan {
-	histories, ks := 3, []int64{0, 1, 3}
+	histories, ks := 2, []int64{0, 1, 3}
 	if tier == "thorough" {
 		histories, ks = 40, []int64{0, 1, 2, 3, 5, 8, 13}
 	}
@@ -296,14 +296,15 @@ func init() {
 	harness.Register(&harness.Property{
 		ID:    "C21",
 		Level: "fault_enumeration",
-		Rule: "for each of 3 (thorough 40) seeded histories on 8-9 real nodes inside the node-operation window (real node-removal operation proposed by the elected node, 30-49 deposits keeping other chains busy, target node's other chain loops held back): every combination of crash boundary {right after the consensus snapshot write, before the consensus marker write, after the marker write + k further Store calls (k in 0,1,3; thorough 0,1,2,3,5,8,13)} x interleaving {none, other chain loops run at the boundary}; after the restart the last recorded consensus operation must be that snapshot or a later one; " +
-			"non-trivial = the enumerated crash fired and the restart was checked; distinct = canonical-log digests. exhaustive refers to this enumerated (history x boundary x interleaving) grid only.",
+		Rule: "cluster part: for each of 2 (thorough 40) seeded histories on 8-9 real nodes inside the node-operation window (real node-removal operation proposed by the elected node, 30-49 deposits keeping other chains busy, target node's other chain loops held back): every combination of crash boundary {right after the consensus snapshot write, before the consensus marker write, after the marker write + k further Store calls (k in 0,1,3; thorough 0,1,2,3,5,8,13)} x interleaving {none, other chain loops run at the boundary}; after the restart the last recorded consensus operation must be that snapshot or a later one; " +
+			"membership-rig part: for every consensus class (pledge, acceptance = round zero of a new chain, removal, custodian update, universal mint) produced as the real transaction through the finalization path, every boundary {right after the snapshot write, before the consensus record write, after it + k store calls}, plus long gaps (130 / 520 ordinary snapshots, i.e. more than one page of the start-up scan) between two consensus operations; " +
+			"non-trivial = the enumerated crash fired and the restart was checked; distinct = canonical-log digests. exhaustive refers to this enumerated (history x class x boundary x interleaving) grid only.",
 		Components: clusterComponents,
 		Assume:     clusterAssume,
 		Gen:        c21Gen,
 		Exec:       c21Exec,
 		Enumerate:  c21Enumerate,
 		QuickRuns:  64, ThoroughRuns: 3000,
-		QuickWall: 150 * time.Second, ThoroughWall: 25 * time.Minute,
+		QuickWall: 240 * time.Second, ThoroughWall: 40 * time.Minute,
 	})
 }
